@@ -209,6 +209,7 @@ def check_property(prop, tier, seed, jobs, verbose):
     lib_used, inlined, callees = set(), set(), set()
     samples = []
     slow = []
+    cross = {}
     for r in results:
         label = r["key"] + (f" [receiver {r['ctx']}]" if r["ctx"] else "") + (f" [alias {r['alias']}]" if r["alias"] else "")
         if r["error"]:
@@ -233,6 +234,12 @@ def check_property(prop, tier, seed, jobs, verbose):
             obligations += 1
             solver_s += o["time"]
             slow.append((o["time"], canon(o["name"]), o["backend"], o["status"]))
+            for be, ans in (o.get("cross_checked") or {}).items():
+                cross.setdefault(be, {}).setdefault(ans if ans in ("unsat", "sat") else "undecided", 0)
+                cross[be][ans if ans in ("unsat", "sat") else "undecided"] += 1
+                if ans == "sat":
+                    checker_errors.append(f"solver disagreement: {be} reports a model for {canon(o['name'])}, which "
+                                          f"{o['backend']} discharged")
             if o["status"] == "proved":
                 discharged += 1
                 by_backend[o["backend"]] = by_backend.get(o["backend"], 0) + 1
@@ -435,6 +442,7 @@ def check_property(prop, tier, seed, jobs, verbose):
         "inlined_accessors": sorted(inlined),
         "callee_contracts_used": sorted(callees),
         "by_backend": by_backend, "solver_s": round(solver_s, 2),
+        "cross_check_of_discharged_obligations": cross or "thorough tier only",
         "slowest_obligations": [{"solver_s": t, "obligation": n, "backend": b, "status": st_}
                                 for t, n, b, st_ in sorted(slow, reverse=True)[:8]],
         "bounded_stand_ins": bounded_recs,
